@@ -755,6 +755,23 @@ class Executor:
             results.append(PathResult(s2, rv, status))
         return results
 
+    def _detach(self, v, st, fi, depth):
+        """Replace references into frame `fi` (about to be left) inside `v` by references to the values themselves
+        (promoted constants such as `&Some(&59_u8)` are chains of references into their own frame)."""
+        if depth > 8:
+            return v
+        if isinstance(v, Ref):
+            if v.kind == "local" and v.target[0] == fi:
+                return Ref("val", self._detach(st.frames[fi].get(v.target[1]), st, fi, depth + 1))
+            if v.kind == "val":
+                return Ref("val", self._detach(v.target, st, fi, depth + 1))
+            return v
+        if isinstance(v, Agg):
+            changed = {k: self._detach(x, st, fi, depth + 1) for k, x in v.fields.items()}
+            if any(changed[k] is not v.fields[k] for k in changed):
+                return Agg(v.ty, v.variant, changed, v.disc)
+        return v
+
     def exec_fn(self, func, args, st, depth):
         frame = {}
         for (p, _ty), a in zip(func.params, args):
@@ -769,6 +786,7 @@ class Executor:
                 rv = s2.frames[-1].get("_0", Unit())
                 if isinstance(rv, Ref) and rv.kind == "local" and rv.target[0] == len(s2.frames) - 1:
                     rv = Ref("val", s2.frames[-1].get(rv.target[1]))  # reference into the frame being left (promoteds)
+                    rv = self._detach(rv, s2, len(s2.frames) - 1, 0)
                 s2.frames.pop()
                 out.append((s2, rv, status))
         finally:
